@@ -209,7 +209,10 @@ def map(
     # Distance to the plane
     diagonal = np.sqrt(ndim)
     xyz = position - origin
-    selection_distance = 0.5 * diagonal * (dz if thick else cell_size)
+    # A cell can reach the plane (or the slab) from as far as half its diagonal
+    selection_distance = 0.5 * diagonal * cell_size
+    if thick:
+        selection_distance = selection_distance + 0.5 * dz
 
     normal = basis.n
     vec_u = basis.u
